@@ -604,3 +604,104 @@ def m_normal_sample(eng, callee, args):
     nrm = deref(args[0])
     mean, std = nrm.fields
     return mean + std * draw(eng, "normal")
+
+
+# --- integer methods of std (concrete integers; sizes are concrete in every configuration) --------
+def _ints(args):
+    vals = [deref(a) for a in args]
+    if not all(isinstance(v, int) and not isinstance(v, bool) for v in vals):
+        raise Unmodelled("integer method on symbolic operands")
+    return vals
+
+
+@model(r"^core::num::<impl (usize|u64|u32|i32|i64|isize|u8|u16)>::(div_ceil|saturating_sub|saturating_add|wrapping_sub|wrapping_mul|"
+       r"pow|abs_diff|min|max|next_power_of_two|is_power_of_two|div_euclid|rem_euclid|is_multiple_of|abs|signum|"
+       r"checked_add|checked_sub|checked_mul|checked_div|unsigned_abs|leading_zeros|trailing_zeros|count_ones|isqrt|ilog2|midpoint)$",
+       "std integer methods (exact integer semantics)")
+def m_int_methods(eng, callee, args):
+    m = re.search(r"<impl (\w+)>::(\w+)$", callee)
+    ty, op = m.group(1), m.group(2)
+    from mirsym import INT_RANGES
+    lo, hi = INT_RANGES[ty]
+    v = _ints(args)
+    a = v[0]
+    b = v[1] if len(v) > 1 else None
+    wrap = lambda r: (r - lo) % (hi - lo + 1) + lo  # noqa: E731
+    if op == "div_ceil":
+        if b == 0:
+            raise PanicPath("attempt to divide by zero")
+        return -((-a) // b)
+    if op == "saturating_sub":
+        return max(lo, min(hi, a - b))
+    if op == "saturating_add":
+        return max(lo, min(hi, a + b))
+    if op == "wrapping_sub":
+        return wrap(a - b)
+    if op == "wrapping_mul":
+        return wrap(a * b)
+    if op == "pow":
+        r = a ** b
+        if not lo <= r <= hi:
+            raise PanicPath("attempt to multiply with overflow")
+        return r
+    if op == "abs_diff":
+        return abs(a - b)
+    if op == "min":
+        return min(a, b)
+    if op == "max":
+        return max(a, b)
+    if op == "next_power_of_two":
+        r = 1
+        while r < a:
+            r <<= 1
+        return r
+    if op == "is_power_of_two":
+        return a > 0 and a & (a - 1) == 0
+    if op == "div_euclid":
+        if b == 0:
+            raise PanicPath("attempt to divide by zero")
+        q = a // b if b > 0 else -(a // -b)
+        return q
+    if op == "rem_euclid":
+        if b == 0:
+            raise PanicPath("attempt to calculate the remainder with a divisor of zero")
+        return a % abs(b)
+    if op == "is_multiple_of":
+        return (a == 0) if b == 0 else a % b == 0
+    if op in ("abs", "unsigned_abs"):
+        return abs(a)
+    if op == "signum":
+        return (a > 0) - (a < 0)
+    if op in ("checked_add", "checked_sub", "checked_mul"):
+        r = {"checked_add": a + b, "checked_sub": a - b, "checked_mul": a * b}[op]
+        return Some(r) if lo <= r <= hi else NONE()
+    if op == "checked_div":
+        return NONE() if b == 0 else Some(int(a / b))
+    if op == "leading_zeros":
+        bits = (hi - lo + 1).bit_length() - 1
+        return bits - a.bit_length()
+    if op == "trailing_zeros":
+        bits = (hi - lo + 1).bit_length() - 1
+        return bits if a == 0 else (a & -a).bit_length() - 1
+    if op == "count_ones":
+        return bin(a % (hi - lo + 1)).count("1")
+    if op == "isqrt":
+        import math
+        return math.isqrt(a)
+    if op == "ilog2":
+        if a <= 0:
+            raise PanicPath("ilog2 of non-positive")
+        return a.bit_length() - 1
+    if op == "midpoint":
+        return (a + b) // 2
+    raise Unmodelled(callee)
+
+
+@model(r"^std::cmp::(min|max)::<(usize|u64|i32|i64|u32)>$|^<(usize|u64|i32|i64|u32) as Ord>::(min|max|clamp)$", "integer min/max/clamp")
+def m_int_minmax(eng, callee, args):
+    v = [deref(a) for a in args]
+    if all(isinstance(x, int) for x in v):
+        if callee.endswith("clamp"):
+            return max(v[1], min(v[2], v[0]))
+        return min(v) if "min" in callee.rsplit("::", 1)[1] or "::min::" in callee else max(v)
+    return m_usize_max(eng, callee, args)
